@@ -519,6 +519,18 @@ func firstDCPhase() func(R *res.Result) {
 			fmt.Sprintf("a cluster without dc-locations returned the Global timestamp (%d,%d) (after a reset one hour ahead); then the first dc-location joined and its first Local timestamp is (%d,%d)", g.Physical, g.Logical, l.Physical, l.Logical),
 			map[string]interface{}{"global": []int64{g.Physical, g.Logical}, "local": []int64{l.Physical, l.Logical}}})
 	}
+	// two dc-locations whose names differ only by a path prefix ("r1/dc-slash" and "dc-slash"): two suffixes
+	if dclife.Join(s, "r1/dc-slash", 646464, 20*time.Second) && dclife.Join(s, "dc-slash", 656565, 20*time.Second) {
+		counts["slash-name:probed"]++
+		info := am.GetClusterDCLocations()
+		if a, b := info["r1/dc-slash"].Suffix, info["dc-slash"].Suffix; a == b {
+			viols = append(viols, viol{"C05:suffix-shared-by-two-dc-locations:name-with-a-path-separator",
+				fmt.Sprintf("dc-location r1/dc-slash joined and was given suffix %d; dc-location dc-slash joined afterwards and was given suffix %d", a, b),
+				map[string]interface{}{"r1/dc-slash": a, "dc-slash": b}})
+		}
+	} else {
+		notes = append(notes, "first-dc phase: the dc-locations with a path separator in the name were not served within 20 s")
+	}
 	// a dc-location whose suffix cannot be written
 	orig := s.GetClient().KV
 	s.GetClient().KV = &failSuffixKV{KV: orig, dc: "dc-nosuffix"}
